@@ -381,6 +381,18 @@ def check_property(root, repo, prop, tier, seed, keep=False):
                     if f.get("function") in r["cfg"]["native_cex"]:
                         f["counterexample"] = cex
                         f["replay_native"] = rn
+    # a Verus failure carries no input; when the bounded run of the generated parsers (same run, same tree) found a failing
+    # input for the same property, attach it to the proof failure as its replayable counterexample
+    gen_fails = [f for r in results if r["unit"] == "native/gen" for f in r["failed"]]
+    for r in results:
+        if r["kind"] == "verus":
+            for f in r["failed"]:
+                if not f.get("counterexample"):
+                    for g in gen_fails:
+                        if set(g["tags"]) & set(f["tags"]):
+                            f["counterexample"] = g["counterexample"] + "  (found by the bounded run U5 with the changed runtime: " + g["message"][:300] + ")"
+                            f["replay_gen"] = g.get("replay_gen")
+                            break
     kf = known_findings(root)
     listed = {(k["prop"], k["id"]): k for k in kf if k["kind"] == "finding"}
     relevant, others, known_hit = [], [], []
@@ -437,7 +449,8 @@ def check_property(root, repo, prop, tier, seed, keep=False):
 
 
 def write_evidence(root, prop, pc, tier, seed, results, relevant, others, known_hit, undecided, wall, rc):
-    os.makedirs(os.path.join(root, "evidence"), exist_ok=True)
+    evdir = os.environ.get("VERIF_EVIDENCE_DIR") or os.path.join(root, "evidence")
+    os.makedirs(evdir, exist_ok=True)
     proofs = [r for r in results if not r["bounded"]]
     bounded = [r for r in results if r["bounded"]]
     level = pc["level"]
@@ -481,9 +494,9 @@ def write_evidence(root, prop, pc, tier, seed, results, relevant, others, known_
         assumptions += ["[%s] %s" % (r["unit"], a) for a in r["cfg"].get("assumed_contracts", [])]
     ev = dict(property_id=prop, tier=tier, seed=seed, level=level, coverage=cov, assumptions=assumptions,
               wall_s=round(wall, 2), violations=len(relevant))
-    tmp = os.path.join(root, "evidence", prop + ".json.tmp")
+    tmp = os.path.join(evdir, prop + ".json.tmp")
     json.dump(ev, open(tmp, "w"), indent=1)
-    os.replace(tmp, os.path.join(root, "evidence", prop + ".json"))
+    os.replace(tmp, os.path.join(evdir, prop + ".json"))
 
 
 def replay(root, repo, prop, path):
